@@ -5,7 +5,8 @@
     inside the loop.  A push running alone jumps back at most once to help a lagging tail and once
     per remaining ticket of the last node (tickets poisoned by stopped poppers); a pop once per
     remaining ticket of every node from head on (tickets whose pushers are stopped are poisoned)
-    and once per node it unlinks. *)
+    and once per node it unlinks (a hand-over iteration is 8 steps: (9) (10) push_idx (11) (12) and the
+    two CASes (16) on _tail and (13) on _head; it fits into the loop weight W). *)
 From Coq Require Import NArith List Bool Lia PeanoNat.
 From XV Require Import Base.Word Conc.Lts Conc.Ev Conc.Solo gen.RamalheteNodeGen Proof.RamalheteNode Model.RamDefs
   Proof.RamBase Proof.RamTickets Proof.RamCons Proof.RamInv.
@@ -60,7 +61,8 @@ Section RamSolo.
     | D3 h _ => W * (Gd s + ne h (head s)) + (nR + 10)
     | D4 h => W * (Gd s + ne h (head s)) + (nR + 9)
     | D5 h => W * (Gd s + ne h (head s)) + (nR + 8)
-    | D6 h => W * (Gd s + ne h (head s)) + 3
+    | D6 h => W * (Gd s + ne h (head s)) + 4
+    | D6t h _ => W * (Gd s + ne h (head s)) + 3
     | D7 h _ => W * (Gd s + ne h (head s)) + 2
     | D9 _ _ c => W * (Gd s + 1) + (4 + (nR - N.to_nat c))
     | D11 _ _ => W * (Gd s + 1) + 2
@@ -182,7 +184,7 @@ Section RamSolo.
 
   Lemma step_total s t : idle s t = false -> exists s' es, step E R s (Step t) = Some (s', es).
   Proof using.
-    unfold idle, step. destruct (th s t); intros Hi; try discriminate Hi; cbv zeta;
+    unfold idle, step, step_gen. destruct (th s t); intros Hi; try discriminate Hi; cbv beta iota zeta;
       repeat match goal with |- context [match ?x with _ => _ end] => destruct x end; eexists; eexists; reflexivity.
   Qed.
 
@@ -321,7 +323,7 @@ Section RamSolo.
 
   Lemma mu_push_le t s : is_push (th s t) = true -> (mu t s <= push_bound)%nat.
   Proof using HE HM.
-    unfold mu, push_bound. pose proof (Gp_le s) as Hg. destruct (th s t) as [|o| | | | | | | | | | | | | | | | | | | | | | |]; try destruct o; cbn [is_push mu_pc]; intros Hp; try discriminate Hp;
+    unfold mu, push_bound. pose proof (Gp_le s) as Hg. destruct (th s t) as [|o| | | | | | | | | | | | | | | | | | | | | | | |]; try destruct o; cbn [is_push mu_pc]; intros Hp; try discriminate Hp;
       repeat match goal with |- context [ne ?a ?b] => destruct (ne_cases a b) as [[_ e]|[_ e]]; rewrite e end;
       repeat match goal with |- context [nz ?a] => destruct (nz_cases a) as [[_ e]|[_ e]]; rewrite e end;
       unfold W, nE, nR in *; nia.
@@ -329,7 +331,7 @@ Section RamSolo.
 
   Lemma mu_pop_le t s : is_push (th s t) = false -> (mu t s <= pop_bound s)%nat.
   Proof using HE HM.
-    unfold mu, pop_bound. pose proof (Gd_le s) as Hg. destruct (th s t) as [|o| | | | | | | | | | | | | | | | | | | | | | |]; try destruct o; cbn [is_push mu_pc]; intros Hp; try discriminate Hp;
+    unfold mu, pop_bound. pose proof (Gd_le s) as Hg. destruct (th s t) as [|o| | | | | | | | | | | | | | | | | | | | | | | |]; try destruct o; cbn [is_push mu_pc]; intros Hp; try discriminate Hp;
       repeat match goal with |- context [ne ?a ?b] => destruct (ne_cases a b) as [[_ e]|[_ e]]; rewrite e end;
       unfold W, nE, nR in *; nia.
   Qed.
